@@ -28,7 +28,7 @@ func encodingEnabledFor(cfg *ChainCfg, r *ChainReq) bool {
 }
 
 func runC07(x *Ctx) {
-	k := chainKnobs{maxFilters: 2, encoding: true, panics: 200, errors: true, plain: true, nested: true, maxPayload: 4096, filterWrites: true, early: true}
+	k := chainKnobs{maxFilters: 2, encoding: true, panics: 200, errors: true, plain: true, nested: true, maxPayload: 4096, filterWrites: true, early: true, wfaults: 80}
 	maxClients := 3
 	if x.Thorough() {
 		k.maxPayload = 200000
@@ -62,6 +62,11 @@ func checkEncoding(x *Ctx, sc *chainScen, reqs []*ChainReq) {
 	cfg := sc.Cfg
 	for _, r := range reqs {
 		res, tw := r.res[0], r.res[1]
+		if res.W.Fired > 0 {
+			// the client went away: bytes were lost by the fault, nothing is promised about this body;
+			// the ledger and every other response are still checked
+			continue
+		}
 		want := tw.W.Body
 		what := fmt.Sprintf("request %d (%s, entry=%s container=%s route=%s Accept-Encoding=%q panic=%q recover=%d)", r.ID, r.Target, cfg.Entry,
 			map[bool]string{true: "on", false: "off"}[cfg.ContEnc], []string{"unset", "on", "off"}[cfg.RouteEnc], r.AE, r.PanicAt, cfg.Recover)
